@@ -1,4 +1,4 @@
-import FcpptProofs.C05.KeepsReg
+import FcpptProofs.C05.NoDrop
 /-!
 # C05 — property theorems: generic operations conserve values
 
@@ -52,6 +52,13 @@ theorem rvalue_exactly_once_in_result (o : Op) (inp : Input) (a : Nat) (h : wf o
     (ha : inp.cat a = some .rv) : (outcome o inp).ExactlyOnceInResult a :=
   safe_rvalue_exactly_once (wf_ids h) (prog_safe o inp h) (prog_allToRes o inp a hk) a ha (prog_covers o inp a h hk ha)
 
+/-- **No element is destroyed** by an operation that is not one of the four that drop values by design (`drops`: the second failure
+of `either::apply`, the failures before a `first_success`, a half-parsed sequence, the emptied `move_range`): with `conserved`, every
+element is then live exactly `1 + copies` times in arguments and result together — e.g. `pop_back`'s element is in the result and
+the others stay in the container; `get_or_insert` leaves all elements where they were. -/
+theorem nothing_lost (o : Op) (inp : Input) (h : wf o inp = true) (hd : drops o = false) : (outcome o inp).lost = [] :=
+  safe_nothing_lost (prog_safe o inp h) (prog_noDrop o inp hd)
+
 /-- the programs never access an element object that does not exist (any more) -/
 theorem no_out_of_bounds (o : Op) (inp : Input) (h : wf o inp = true) : (exec o inp).oob = [] :=
   (safe_quiet (prog_safe o inp h)).2
@@ -74,33 +81,46 @@ example : (outcome .recPermute ⟨[(.rv, [1, 2, 3])], [2, 0, 1]⟩).res = [(3, t
 /-- `map_optional` is a filter: it is not among the keepers -/
 example : keeps .mapOptional ⟨[(.rv, [1, 2])], [1, 0]⟩ 0 = false := by decide
 
-/-! ## refuted: what the conservation predicates exclude
+/-! ## refuted: the three repaired defects, each against the operation as it is now
 
-* a copy on the rvalue path (what `either::bind` did with the failure before fix f5622af):
-  `result_type{_either.get_failure_unsafe()}` is `xfer 0 0 .copy .res` on an rvalue argument;
-* a read after a move (what the `options::flag` constructor did before fix 986d19b):
-  both arguments are moved into the members and then compared.
+* `either::bind` before fix f5622af copied the failure of an rvalue either (`oldEithBindFailure`);
+* the `options::flag` constructor before fix 986d19b compared its arguments after moving from them (`oldOptsFlag`);
+* `optional::to_container` before fix 9030486 moved the element out of an lvalue optional (`oldOptToContainer`).
 -/
 
-example : ¬ (runOn ⟨[(.rv, [1])], []⟩ [.xfer 0 0 .copy .res]).NoCopyOfRvalue := by
+/-- old `either::bind`, rvalue either holding a failure: the failure is copied -/
+example : ¬ (runOn ⟨[(.rv, [1])], [0, 0]⟩ oldEithBindFailure).NoCopyOfRvalue := by
   intro h
   exact h 0 (by decide) 1 (by decide) (by decide)
+/-- now it is moved: nothing is copied, the source is moved-from -/
+example : (outcome .eithBind ⟨[(.rv, [1])], [0, 0]⟩).cp = [] ∧ (outcome .eithBind ⟨[(.rv, [1])], [0, 0]⟩).outs = [[(1, false)]] := by
+  decide
 
-example : ¬ (runOn ⟨[(.rv, [1]), (.rv, [11])], []⟩
-    [.xfer 0 0 .move .res, .xfer 1 0 .move .res, .read 0 0, .read 1 0]).NoReadAfterMove := by
+/-- old `options::flag` constructor: reads both arguments after moving from them -/
+example : ¬ (runOn ⟨[(.rv, [1]), (.rv, [11])], []⟩ oldOptsFlag).NoReadAfterMove := by
   intro h
   exact absurd (show (runOn _ _).ram = [] from h) (by decide)
+example : (runOn ⟨[(.rv, [1]), (.rv, [11])], []⟩ oldOptsFlag).ram = [1, 11] := by decide
+/-- now the stored values are compared -/
+example : (outcome .optsFlag ⟨[(.rv, [1]), (.rv, [11])], []⟩).ram = [] := by decide
+
+/-- old `optional::to_container`, lvalue optional: the argument is changed -/
+example : ¬ (runOn ⟨[(.lv, [1])], []⟩ (oldOptToContainer 1)).LvalueUnchanged := by
+  intro h
+  exact absurd (h 0 .lv (by decide) (Or.inl rfl)) (by decide)
+/-- now the element is copied and the argument keeps it -/
+example : (outcome .optToContainer ⟨[(.lv, [1])], []⟩).outs = [[(1, true)]] ∧ (outcome .optToContainer ⟨[(.lv, [1])], []⟩).cp = [1] := by
+  decide
+
+/-! ## refuted: what else the conservation predicates exclude -/
 
 /-- moving the same element twice is a read after move and a second move out of the argument -/
 example : ¬ (runOn ⟨[(.rv, [1])], []⟩ [.xfer 0 0 .move .res, .xfer 0 0 .move .res]).MovedAtMostOnce := by
   intro h
   exact absurd (h 1 (by decide)) (by decide)
 
-/-- moving out of an lvalue argument changes it — what `optional::to_container` did with an lvalue optional before
-fix 9030486 (it handed `container::make`, which moves out of every argument, the element of the source itself) -/
-example : ¬ (runOn ⟨[(.lv, [1])], []⟩ [.xfer 0 0 .move .res]).LvalueUnchanged := by
-  intro h
-  exact absurd (h 0 .lv (by decide) (Or.inl rfl)) (by decide)
+/-- a copy of an rvalue element shows up as a duplicate: two live objects carry it -/
+example : (runOn ⟨[(.rv, [1])], []⟩ [.xfer 0 0 .copy .res]).liveCount 1 = 2 := by decide
 
 /-- a filter that drops an element loses it: `Conserved` then accounts for it in `lost` -/
 example : (runOn ⟨[(.rv, [1, 2])], []⟩ [.xfer 0 0 .move .res, .xfer 0 1 .move .drop]).lost = [2] := by decide
